@@ -173,7 +173,67 @@ def check_C15(ctx, w):
     seq_pipeline(ctx, w, tests, ["Conf_C15"])
 
 
-CHECKS = {"C01": check_C01, "C03": check_C03, "C06": check_C06, "C15": check_C15}
+def gen_tests(ctx, n, fn, label, **kw):
+    binp = vlib.build()
+    uni = gen.universe(binp)
+    out = []
+    for i in range(n):
+        t = fn(uni, ctx.rng, i, **kw)
+        t["id"] = "%s%d" % (label, i)
+        out.append(t)
+    return out
+
+
+def check_C02(ctx, w):
+    ctx.rule = ("sweep of every operator x every probe (each used value, its neighbours, absent values, non-canonical spellings, regex patterns) on every field "
+                "after every transition of the bounded model (3 values, ties, updates moving inside the index, deletes, reopen), on the indexed and the plain struct; "
+                "random And/Or chains of depth <= 3 and search-deletes on random contents")
+    tests = mc_tests(ctx, w, "mc", slots=ctx.q(2, 3), kvals=2, avals=3, maxbatch=1, maxops=ctx.q(3, 4), bfilter="NoBatch", get=False,
+                     limit=ctx.q(3000, 50000))
+    tests += rnd_tests(ctx, ctx.q(150, 3000), nops=ctx.q(30, 50), p_query=0.15)
+    seq_pipeline(ctx, w, tests, ["Conf_C02"])
+
+
+def check_C04(ctx, w):
+    ctx.rule = "close+reopen (with and without Create) and, in synchronous mode, abandonment at every position of every history of the bounded model, full sweep before and after; random histories over the extreme-value palettes (2^53 neighbours, MaxInt64, nanosecond timestamps)"
+    tests = mc_tests(ctx, w, "mc", slots=2, kvals=2, avals=2, maxbatch=2, maxops=ctx.q(3, 4), bfilter="PairBatch", get=False, limit=ctx.q(3000, 50000))
+    tests += rnd_tests(ctx, ctx.q(200, 3000), nops=ctx.q(25, 50), p_reopen=0.2, abandon=True)
+    seq_pipeline(ctx, w, tests, ["Conf_C04"])
+
+
+def check_C07(ctx, w):
+    ctx.rule = "every batch of length <= 2 (quick) / 3 (thorough) over the bounded objects on every reachable pre-state: offender at every position, duplicates, same identity twice, updates mixed with inserts; random batches <= 5 with chunk sizes 1..3, same object repeated, other-type objects"
+    tests = mc_tests(ctx, w, "mc", slots=2, kvals=2, avals=1, maxbatch=ctx.q(2, 3), maxops=ctx.q(3, 3), bfilter="AnyBatch", get=False, limit=ctx.q(4000, 60000))
+    tests += rnd_tests(ctx, ctx.q(200, 3000), nops=ctx.q(25, 40), p_batch=0.45)
+    seq_pipeline(ctx, w, tests, ["Conf_C07"])
+
+
+def check_C13(ctx, w):
+    ctx.rule = "searches and And-chains ending on an indexed field collected with Reverse x Limit in {none,0,1,2,3,n-1,n,n+1,2^30} x One, on random contents with ties; AssignIndex and ordered sweep queries after every transition of the bounded model"
+    tests = mc_tests(ctx, w, "mc", slots=ctx.q(2, 3), kvals=2, avals=2, maxbatch=1, maxops=ctx.q(3, 4), bfilter="NoBatch", get=False, limit=ctx.q(2000, 30000))
+    tests += gen_tests(ctx, ctx.q(200, 3000), gen.order_test, "ord", nobj=ctx.q(6, 10), nq=ctx.q(8, 12))
+    seq_pipeline(ctx, w, tests, ["Conf_C13"])
+
+
+def check_C16(ctx, w):
+    ctx.rule = "case-constrained fields (unique lower, indexed upper, unindexed lower, nested upper behind nil / non-nil pointer) written and probed with every spelling variant of the universe (ASCII, sharp s, dotless i, Kelvin sign, digraphs, final sigma)"
+    tests = mc_tests(ctx, w, "mc", slots=2, kvals=3, avals=2, maxbatch=1, maxops=ctx.q(3, 4), bfilter="NoBatch", get=False, limit=ctx.q(2000, 30000),
+                     convert_kw=dict(extra=3))
+    tests += rnd_tests(ctx, ctx.q(200, 3000), nops=ctx.q(25, 40), case_heavy=True, fields=["N", "PX", "Z"], p_query=0.1)
+    seq_pipeline(ctx, w, tests, ["Conf_C16"])
+
+
+def check_C20(ctx, w):
+    ctx.rule = "a query evaluated twice at the same instant (twin handles): one collected at once, the other after <= 2 (model) / <= 4 (random) later inserts, updates, deletes, batches, search-deletes; exhaustive over operators, probes and write sequences of the bounded model"
+    tests = mc_tests(ctx, w, "mc", slots=ctx.q(2, 3), kvals=2, avals=ctx.q(2, 3), maxbatch=1, maxops=ctx.q(4, 5), bfilter="NoBatch", get=False, handle=True,
+                     limit=ctx.q(4000, 60000))
+    tests = [t for t in tests if any(o["op"] == "collect" for o in t["ops"])]
+    tests += gen_tests(ctx, ctx.q(200, 3000), gen.snapshot_test, "snap", nobj=ctx.q(6, 10))
+    seq_pipeline(ctx, w, tests, ["Conf_C20"])
+
+
+CHECKS = {"C01": check_C01, "C02": check_C02, "C03": check_C03, "C04": check_C04, "C06": check_C06, "C07": check_C07,
+          "C13": check_C13, "C15": check_C15, "C16": check_C16, "C20": check_C20}
 
 TECH = "TLA+ design model (SodImpl) explored exhaustively by TLC, one generated test per model transition replayed on the real code, every recorded trace validated by TLC against the trace specification (SodTrace) with the property's invariant"
 META = {
